@@ -8,6 +8,7 @@ mod origin;
 mod sched;
 mod halflock;
 mod regconc;
+mod channel;
 
 #[global_allocator]
 static GLOBAL: sched::CountingAlloc = sched::CountingAlloc;
@@ -21,6 +22,9 @@ fn main() {
         "origin" => origin::main(),
         "halflock" => halflock::main(),
         "regconc" => regconc::main(),
+        "channel" => channel::main(),
+        "channel-table" => channel::table_main(),
+        "channel-stress" => channel::stress_main(),
         _ => {
             eprintln!("usage: harness <registry>");
             2
